@@ -3,11 +3,14 @@ package checks
 import (
 	"bufio"
 	"fmt"
+	"io"
+	"log"
 	"net"
 	"net/http"
 	"net/http/httptest"
 	"strconv"
 	"strings"
+	"sync"
 	"time"
 
 	"github.com/nuetzliches/hookaido/internal/dispatcher"
@@ -95,5 +98,78 @@ func c06HTTP(c *vlib.Ctx) {
 		real := dispatcher.NewHTTPDeliverer(&http.Client{}, dispatcher.EgressPolicy{})
 		pushcheck.Run(c, pushcheck.Scenario{Label: "C06/http/" + be, Backend: be, Routes: routes, Messages: msgs, Real: real,
 			Script: func(_, target string, _ int) pushcheck.Behaviour { return want[target] }})
+	}
+}
+
+// c06Wire: what the target sees on the wire versus what the dispatcher did.
+// Every request the target receives must belong to one delivery attempt of the
+// dispatcher: the target is contacted at most retry.max+1 times and every
+// contact has an attempt record. Target: answers 200 to "warm" messages (which
+// leaves a pooled keep-alive connection) and, for "drop" messages, reads the
+// request and closes the connection without a response byte. Messages carry no
+// special header, Idempotency-Key, or X-Idempotency-Key (sender-supplied
+// headers are stored at ingress and sent on delivery).
+func c06Wire(c *vlib.Ctx) {
+	type variant struct{ name, header string }
+	variants := []variant{{"no_header", ""}, {"idempotency_key", "Idempotency-Key"}, {"x_idempotency_key", "X-Idempotency-Key"}}
+	for _, be := range []string{"memory", "sqlite"} {
+		for _, v := range variants {
+			var mu sync.Mutex
+			hits := map[string]int{}
+			srv := httptest.NewServer(http.HandlerFunc(func(w http.ResponseWriter, r *http.Request) {
+				b, _ := io.ReadAll(r.Body)
+				id := string(b)
+				mu.Lock()
+				hits[id]++
+				mu.Unlock()
+				if strings.HasPrefix(id, "drop") {
+					panic(http.ErrAbortHandler) // connection closed, no response
+				}
+				w.WriteHeader(200)
+			}))
+			srv.Config.ErrorLog = log.New(io.Discard, "", 0)
+			url := srv.URL + "/wire"
+			routes := []dispatcher.RouteConfig{{Route: "/wire", Concurrency: 1, Targets: []dispatcher.TargetConfig{{URL: url, Timeout: 2 * time.Second,
+				Retry: dispatcher.RetryConfig{Type: "exponential", Max: 2, Base: time.Second, Cap: 2 * time.Second}}}}}
+			var hdr map[string]string
+			if v.header != "" {
+				hdr = map[string]string{v.header: "key-1"}
+			}
+			// warm and drop messages alternate, so that a drop message finds an idle pooled connection
+			var msgs []pushcheck.Message
+			for i := 0; i < 4; i++ {
+				msgs = append(msgs, pushcheck.Message{ID: fmt.Sprintf("warm%d", i), Route: "/wire", Target: url, Headers: hdr},
+					pushcheck.Message{ID: fmt.Sprintf("drop%d", i), Route: "/wire", Target: url, Headers: hdr})
+			}
+			real := dispatcher.NewHTTPDeliverer(&http.Client{}, dispatcher.EgressPolicy{})
+			pushcheck.Run(c, pushcheck.Scenario{Label: "C06/wire/" + be + "/" + v.name, Backend: be, Routes: routes, Messages: msgs, Real: real,
+				Script: func(msg, _ string, _ int) pushcheck.Behaviour {
+					if strings.HasPrefix(msg, "drop") {
+						return pushcheck.Behaviour{Err: "net"}
+					}
+					return pushcheck.Behaviour{Status: 200}
+				},
+				AfterRun: func(evs []pushcheck.Event) {
+					delivers := map[string]int{}
+					for _, e := range evs {
+						if e.Kind == "deliver" {
+							delivers[e.Msg]++
+						}
+					}
+					mu.Lock()
+					defer mu.Unlock()
+					for _, m := range msgs {
+						c.Count("evaluations", 1)
+						c.Count("wire_messages_compared", 1)
+						c.Distinct("nontrivial", fmt.Sprintf("wire:%s:%s:%s:hits_vs_attempts=%s", be, v.name, m.ID[:4], cmpClass(hits[m.ID], delivers[m.ID])))
+						if hits[m.ID] != delivers[m.ID] {
+							c.Violation(vlib.Signature{"class": "hidden_resend", "message_header": v.name},
+								fmt.Sprintf("the target received message %s %d times, the dispatcher made %d delivery attempts (retry.max+1 = 3): %d request(s) were re-sent below the dispatcher (no attempt record, no backoff)", m.ID, hits[m.ID], delivers[m.ID], hits[m.ID]-delivers[m.ID]),
+								map[string]any{"backend": be, "message_headers": hdr, "target_hits": hits[m.ID], "delivery_attempts": delivers[m.ID]})
+						}
+					}
+				}})
+			srv.Close()
+		}
 	}
 }
